@@ -462,6 +462,9 @@ pub struct YamlSerializer<'a, W: Write> {
     inline_map_after_dash: bool,
     /// Whether the last serialized value was a block collection (map or sequence).
     last_value_was_block: bool,
+    /// Whether the last scalar written was a block scalar with keep chomping (`|+` / `>+`):
+    /// every line break after it, up to the next content line, belongs to its value.
+    last_scalar_kept_breaks: bool,
     /// If a sequence element starts with a dash on this depth, capture that depth so
     /// struct-variant mappings emitted immediately after can indent their fields correctly.
     after_dash_depth: Option<usize>,
@@ -506,6 +509,7 @@ impl<'a, W: Write> YamlSerializer<'a, W> {
             pending_space_after_colon: false,
             inline_map_after_dash: false,
             last_value_was_block: false,
+            last_scalar_kept_breaks: false,
             after_dash_depth: None,
             current_map_depth: None,
             quote_all: false,
@@ -630,6 +634,7 @@ impl<'a, W: Write> YamlSerializer<'a, W> {
         // When a scalar value is serialized, it should reset the block-sibling flag.
         // Most scalar emitters call this method.
         self.last_value_was_block = false;
+        self.last_scalar_kept_breaks = false;
         Ok(())
     }
 
@@ -1087,6 +1092,7 @@ impl<'a, 'b, W: Write> Serializer for &'a mut YamlSerializer<'b, W> {
                     //  - >=2 → "|+" (keep)
                     let content = v.trim_end_matches('\n');
                     let trailing_nl = v.len() - content.len();
+                    self.last_scalar_kept_breaks = trailing_nl >= 2;
 
                     // Write block scalar header: | or |N with optional chomp indicator
                     self.out.write_char('|')?;
@@ -1304,8 +1310,11 @@ impl<'a, 'b, W: Write> Serializer for &'a mut YamlSerializer<'b, W> {
             }
             NAME_SPACE_AFTER => {
                 // Serialize the value, then emit an empty line after (only in block style).
+                self.last_scalar_kept_breaks = false;
                 let result = value.serialize(&mut *self);
-                if self.in_flow == 0 {
+                // After a `|+` scalar an empty line would be read as one more line break of
+                // the scalar itself, so none is added there.
+                if self.in_flow == 0 && !self.last_scalar_kept_breaks {
                     // Emit an extra blank line after the value
                     self.newline()?;
                 }
